@@ -14,7 +14,7 @@ import warnings
 
 HOME = os.environ.get("QMC_HOME", os.path.dirname(os.path.dirname(os.path.abspath(__file__))))
 REPO = os.path.realpath(os.environ.get("VERIF_REPO", "/repo"))
-DEPS = os.path.join(HOME, ".deps")
+DEPS = os.path.join(HOME, ".deps") if os.path.isdir(os.path.join(HOME, ".deps")) else "/verif/.deps"
 
 if REPO not in sys.path[:1]:
     sys.path.insert(0, REPO)
